@@ -5,23 +5,25 @@ From LJT Require Import model.PartialSmooth gen.GenScaling.
 Import ListNotations.
 Local Open Scope Z_scope.
 
-Lemma smooth_window_same wib first last b :
-  0 <= first -> first <= b <= last -> last < wib -> (first = 0 \/ first + 2 <= b) ->
-  smooth_cols first (lbc_of gen_smooth_lbc_is_width wib last) b = full_cols wib b.
+Lemma smooth_window_same lr wib first last b :
+  0 <= first -> first <= b <= last -> last < wib -> (first = 0 \/ first + 2 <= b \/ lr = true) ->
+  smooth_cols (lo_of lr first) (lbc_of gen_smooth_lbc_is_width wib last) b = full_cols wib b.
 Proof.
-  intros H0 Hb Hl Hf. unfold full_cols, smooth_cols. change gen_smooth_lbc_is_width with true. cbn [lbc_of].
-  assert (A : Z.max (b - 2) first = Z.max (b - 2) 0) by lia.
-  assert (B : Z.max (b - 1) first = Z.max (b - 1) 0) by lia.
+  intros H0 Hb Hl Hf. unfold full_cols, smooth_cols, lo_of. change gen_smooth_lbc_is_width with true. cbn [lbc_of].
+  destruct lr; [reflexivity|].
+  assert (A : Z.max (b - 2) first = Z.max (b - 2) 0) by (destruct Hf as [? | [? | ?]]; [lia | lia | discriminate]).
+  assert (B : Z.max (b - 1) first = Z.max (b - 1) 0) by (destruct Hf as [? | [? | ?]]; [lia | lia | discriminate]).
   rewrite A, B. reflexivity.
 Qed.
 
-(* the columns read always exist in the coefficient arrays and never lie left of the decoded window *)
-Lemma smooth_window_range wib first last b c :
+(* the columns read always exist in the coefficient arrays (whole-image virtual arrays) and, without the repair, never
+   lie left of the decoded window *)
+Lemma smooth_window_range lr wib first last b c :
   0 <= first -> first <= b <= last -> last < wib ->
-  In c (smooth_cols first (lbc_of gen_smooth_lbc_is_width wib last) b) -> first <= c <= wib - 1.
+  In c (smooth_cols (lo_of lr first) (lbc_of gen_smooth_lbc_is_width wib last) b) -> lo_of lr first <= c <= wib - 1.
 Proof.
-  intros H0 Hb Hl. change gen_smooth_lbc_is_width with true. cbn [lbc_of smooth_cols In].
-  intros [<- | [<- | [<- | [<- | [<- | []]]]]]; lia.
+  intros H0 Hb Hl. change gen_smooth_lbc_is_width with true. unfold lo_of. cbn [lbc_of smooth_cols In].
+  destruct lr; intros [<- | [<- | [<- | [<- | [<- | []]]]]]; lia.
 Qed.
 
 (* left edge inside the image: the first two block columns of the region are smoothed with replicated
